@@ -39,7 +39,62 @@ fn run_blit16(toks: &[&str], em: &mut Emitter) {
     });
 }
 
+/// `blitd`: a COMPRESSED event with the given data (hostile planar / interleaved streams) painted
+/// through decompress(): refuse, or paint exactly what the decoder model yields; never crash
+fn run_blitd(toks: &[&str], em: &mut Emitter) {
+    let line = toks.join(" ");
+    let v: Vec<usize> = toks[1..10].iter().map(|t| t.parse().unwrap()).collect();
+    let data = unhex(toks[10]);
+    let (width, buflen, left, top, right, bottom, bw, bh, bpp) = (v[0], v[1], v[2], v[3], v[4], v[5], v[6], v[7], v[8]);
+    em.case(&line, move || {
+        let mut buffer: Vec<u32> = (0..buflen).map(|j| 0xB000_0000 | j as u32).collect();
+        let ev = BitmapEvent { dest_left: left as u16, dest_top: top as u16, dest_right: right as u16, dest_bottom: bottom as u16, width: bw as u16, height: bh as u16, bpp: bpp as u16, is_compress: true, data };
+        let r = crate::gui::verif_fast_bitmap_transfer(&mut buffer, width, ev);
+        let cells: Vec<String> = buffer.iter().enumerate().map(|(j, c)| if *c == (0xB000_0000 | j as u32) { ".".to_string() } else { format!("?{:08x}", c) }).collect();
+        Obs::new(format!("{} {}", if r.is_ok() { "ok" } else { "E" }, cells.join(","))).nt(r.is_ok())
+    });
+}
+
+/// `blitseq W BUFLEN l.t.r.b.bw.bh.imgpix ...`: several paints, one after the other, into the same
+/// window buffer on the same thread (pixel k of paint p carries 0x1A000000 | p << 20 | k)
+fn run_blitseq(toks: &[&str], em: &mut Emitter) {
+    let line = toks.join(" ");
+    let width: usize = toks[1].parse().unwrap(); let buflen: usize = toks[2].parse().unwrap();
+    let paints: Vec<Vec<usize>> = toks[3..].iter().map(|t| t.split('.').map(|x| x.parse().unwrap()).collect()).collect();
+    em.case(&line, move || {
+        let mut buffer: Vec<u32> = Vec::with_capacity(buflen + GUARD);
+        for j in 0..buflen { buffer.push(0xB000_0000 | j as u32); }
+        unsafe { let p = buffer.as_mut_ptr().add(buflen); for k in 0..GUARD { p.add(k).write(CANARY); } }
+        let mut res = vec![];
+        for (pi, g) in paints.iter().enumerate() {
+            let (left, top, right, bottom, bw, bh, imgpix) = (g[0], g[1], g[2], g[3], g[4], g[5], g[6]);
+            let mut data: Vec<u8> = Vec::with_capacity(imgpix * 4);
+            for p in 0..imgpix {
+                let k = if bw > 0 && p < bw * bh { (bh - 1 - p / bw) * bw + p % bw } else { p };
+                data.extend_from_slice(&(0x1A00_0000u32 | (pi as u32) << 20 | k as u32).to_le_bytes());
+            }
+            let ev = BitmapEvent { dest_left: left as u16, dest_top: top as u16, dest_right: right as u16, dest_bottom: bottom as u16, width: bw as u16, height: bh as u16, bpp: 32, is_compress: false, data };
+            res.push(if crate::gui::verif_fast_bitmap_transfer(&mut buffer, width, ev).is_ok() { "ok" } else { "E" });
+        }
+        let mut canary_ok = buffer.len() == buflen;
+        unsafe { let p = buffer.as_ptr().add(buflen); for k in 0..GUARD { if p.add(k).read() != CANARY { canary_ok = false; } } }
+        let mut foreign = false;
+        let cells: Vec<String> = buffer.iter().enumerate().map(|(j, c)| {
+            if *c == (0xB000_0000 | j as u32) { ".".to_string() } else {
+                let (pi, k) = (((*c >> 20) & 0xf) as usize, (*c & 0xfffff) as usize);
+                if !(*c & 0xFF00_0000 == 0x1A00_0000 && pi < paints.len() && k < paints[pi][4] * paints[pi][5]) { foreign = true; }
+                format!("?{:08x}", c)
+            } }).collect();
+        let mut o = Obs::new(format!("{} {}", res.join(","), cells.join(","))).nt(res.contains(&"ok"));
+        if !canary_ok { o = o.viol("write past the end of the window buffer (canary overwritten)"); }
+        else if foreign { o = o.viol("window buffer holds a value that is neither its old content nor an image pixel (read outside the image)"); }
+        o
+    });
+}
+
 pub fn run_case(toks: &[&str], em: &mut Emitter) {
+    if toks[0] == "blitd" { return run_blitd(toks, em); }
+    if toks[0] == "blitseq" { return run_blitseq(toks, em); }
     if toks[0] == "blitz" { return run_blitz(toks, em); }
     if toks[0] == "blit16" { return run_blit16(toks, em); }
     let line = toks.join(" ");
@@ -111,6 +166,38 @@ pub fn generate(thorough: bool, seed: u64, part: (usize, usize), em: &mut Emitte
             let line = format!("blitz 4 16 {} {} {} {} {} {} 16", l, t, rr, b, bw, bh);
             let toks: Vec<&str> = line.split(' ').collect(); run_case(&toks, em);
         } }
+    }
+    if part.0 == 0 {
+        // compressed events carrying hostile planar / interleaved streams (short, run-heavy, crossing
+        // the end of a scanline) for small images
+        let alphabet = [0x00u8, 0x01, 0x02, 0x03, 0x10, 0x11, 0x12, 0x1f, 0x20, 0x21, 0xf0, 0xff, 0xaa, 0x0f];
+        for _ in 0..(if thorough { 20000 } else { 1500 }) {
+            let (bw, bh) = (r.range(1, 3) as usize, r.range(1, 3) as usize);
+            let n = r.below(10) as usize;
+            let mut d = vec![0x10u8]; for _ in 0..n { d.push(if r.chance(3, 4) { *r.pick(&alphabet) } else { r.byte() }); }
+            let bpp = if r.chance(1, 5) { d.remove(0); 16 } else { 32 };
+            let line = format!("blitd 4 16 0 0 {} {} {} {} {} {}", bw - 1, bh - 1, bw, bh, bpp, if d.is_empty() { "-".to_string() } else { hex(&d) });
+            let toks: Vec<&str> = line.split(' ').collect(); run_case(&toks, em);
+        }
+        // several paints in a row into the same window: each is judged on its own image and rectangle,
+        // whatever was painted before (same rectangle with a smaller / larger image, other rectangles)
+        for _ in 0..(if thorough { 20000 } else { 1200 }) {
+            let width = r.range(2, 6) as usize; let rows = r.range(2, 6) as usize;
+            let (l, t) = (r.below(width as u64) as usize, r.below(rows as u64) as usize);
+            let (rt, b) = (l + r.below((width - l) as u64) as usize, t + r.below((rows - t) as u64) as usize);
+            let np = r.range(2, 4) as usize;
+            let mut items = vec![];
+            for _ in 0..np {
+                let same = r.chance(3, 4);
+                let (l2, t2, r2, b2) = if same { (l, t, rt, b) } else { (r.below(width as u64 + 1) as usize, r.below(rows as u64 + 1) as usize, r.below(width as u64 + 2) as usize, r.below(rows as u64 + 2) as usize) };
+                let bw = (rt + 1 - l) + if r.chance(1, 4) { r.below(2) as usize } else { 0 };
+                let bh = match r.below(3) { 0 => b + 1 - t, 1 => (b + 1 - t).saturating_sub(1 + r.below(2) as usize), _ => b + 1 - t + r.below(2) as usize };
+                let imgpix = if r.chance(5, 6) { bw * bh } else { (bw * bh).saturating_sub(1) };
+                items.push(format!("{}.{}.{}.{}.{}.{}.{}", l2, t2, r2, b2, bw, bh, imgpix));
+            }
+            let line = format!("blitseq {} {} {}", width, width * rows, items.join(" "));
+            let toks: Vec<&str> = line.split(' ').collect(); run_case(&toks, em);
+        }
     }
     // exhaustive small geometries: window ≤ W×H, coordinates ≤ C, image ≤ I×I
     let (wmax, cmax, imax) = if thorough { (4usize, 5usize, 3usize) } else { (3, 3, 2) };
